@@ -79,16 +79,16 @@ def Msg.isFinal : Msg → Bool
   | .reply r => r.continues != some true
   | _ => false
 
-theorem recv_no_stream (s : CS) (h : (s.call.reader && s.call.writer) = false) :
-    recv s = some (.err .iteratorOldReply, s) := by
+theorem recv_no_stream (dec : Decoder) (s : CS) (h : (s.call.reader && s.call.writer) = false) :
+    recv dec s = some (.err .iteratorOldReply, s) := by
   unfold recv
   have : (!s.call.reader || !s.call.writer) = true := by
     cases hr : s.call.reader <;> cases hw : s.call.writer <;> simp_all
   simp [this]
 
-theorem recv_reply (s : CS) (r : Reply) (q : List Msg)
+theorem recv_reply (dec : Decoder) (s : CS) (r : Reply) (q : List Msg)
     (hr : s.call.reader = true) (hw : s.call.writer = true) (hq : s.wire.queue = .reply r :: q) :
-    recv s = some (replyRes r,
+    recv dec s = some (replyRes dec r,
       if r.continues = some true then
         { s with call := { s.call with continues := true }, wire := { s.wire with queue := q } }
       else
@@ -99,32 +99,46 @@ theorem recv_reply (s : CS) (r : Reply) (q : List Msg)
   simp [hr, hw, hq]
   split <;> simp
 
+/-- `recv` never gives method/request back -/
+theorem recv_keeps_spent (dec : Decoder) (s : CS) (r : Res) (s' : CS) (h : recv dec s = some (r, s'))
+    (hm : s.call.method = none) : s'.call.method = none := by
+  unfold recv at h
+  split at h
+  · simp at h; rw [← h.2]; exact hm
+  · split at h
+    · split at h
+      · simp at h; rw [← h.2]; exact hm
+      · simp at h
+    · simp at h; rw [← h.2]; exact hm
+    · simp at h; rw [← h.2]; exact hm
+    · split at h <;> (simp at h; rw [← h.2]; exact hm)
+
 /-! ### iteration -/
 
 /-- `n` successive calls of `Iterator::next` (the read never blocking) -/
-def nexts : Nat → CS → Option (List Res × CS)
+def nexts (dec : Decoder) : Nat → CS → Option (List Res × CS)
   | 0, s => some ([], s)
   | n + 1, s =>
-    match next s with
+    match next dec s with
     | none => none
     | some (r, s') =>
-      match nexts n s' with
+      match nexts dec n s' with
       | none => none
       | some (rs, s'') => some (r :: rs, s'')
 
 /-- once `continues` is false, `next` yields `None` for ever and changes nothing -/
-theorem nexts_ended (s : CS) (h : s.call.continues = false) :
-    ∀ n, nexts n s = some (List.replicate n .none, s) := by
+theorem nexts_ended (dec : Decoder) (s : CS) (h : s.call.continues = false) :
+    ∀ n, nexts dec n s = some (List.replicate n .none, s) := by
   intro n
   induction n with
   | zero => rfl
   | succ n ih => simp [nexts, next, h, ih, List.replicate_succ]
 
 /-- a call that owns the stream and iterates over `continues` replies keeps owning it -/
-theorem nexts_continues (rs : List Reply) (rest : List Msg) :
+theorem nexts_continues (dec : Decoder) (rs : List Reply) (rest : List Msg) :
     ∀ s : CS, s.call.reader = true → s.call.writer = true → s.call.continues = true →
       s.wire.queue = rs.map Msg.reply ++ rest → (∀ r ∈ rs, r.continues = some true) →
-      nexts rs.length s = some (rs.map replyRes,
+      nexts dec rs.length s = some (rs.map (replyRes dec),
         { s with call := { s.call with continues := true }, wire := { s.wire with queue := rest } }) := by
   induction rs with
   | nil =>
@@ -143,7 +157,7 @@ theorem nexts_continues (rs : List Reply) (rest : List Msg) :
     have hq' : s.wire.queue = .reply r :: (rs.map Msg.reply ++ rest) := by simpa using hq
     rw [List.length_cons, nexts]
     simp only [next, hc, Bool.not_true, Bool.false_eq_true, if_false]
-    rw [recv_reply s r _ hr hw hq']
+    rw [recv_reply dec s r _ hr hw hq']
     simp only [hrc, if_true]
     have e := ih { s with call := { s.call with continues := true },
                           wire := { s.wire with queue := rs.map Msg.reply ++ rest } }
@@ -152,11 +166,11 @@ theorem nexts_continues (rs : List Reply) (rest : List Msg) :
     simp
 
 /-- … and the final reply ends the iteration and returns the stream -/
-theorem nexts_stream (rs : List Reply) (f : Reply) (rest : List Msg) (s : CS)
+theorem nexts_stream (dec : Decoder) (rs : List Reply) (f : Reply) (rest : List Msg) (s : CS)
     (hr : s.call.reader = true) (hw : s.call.writer = true) (hc : s.call.continues = true)
     (hq : s.wire.queue = rs.map Msg.reply ++ .reply f :: rest)
     (hall : ∀ r ∈ rs, r.continues = some true) (hf : f.continues ≠ some true) :
-    nexts (rs.length + 1) s = some (rs.map replyRes ++ [replyRes f],
+    nexts dec (rs.length + 1) s = some (rs.map (replyRes dec) ++ [replyRes dec f],
       { conn := { reader := true, writer := true },
         call := { s.call with continues := false, reader := false, writer := false },
         wire := { s.wire with queue := rest } }) := by
@@ -164,14 +178,14 @@ theorem nexts_stream (rs : List Reply) (f : Reply) (rest : List Msg) (s : CS)
   | nil =>
     have hq' : s.wire.queue = .reply f :: rest := by simpa using hq
     simp only [List.length_nil, nexts, next, hc, Bool.not_true, Bool.false_eq_true, if_false]
-    rw [recv_reply s f _ hr hw hq']
+    rw [recv_reply dec s f _ hr hw hq']
     simp [hf]
   | cons r rs ih =>
     have hrc : r.continues = some true := hall r (by simp)
     have hq' : s.wire.queue = .reply r :: (rs.map Msg.reply ++ .reply f :: rest) := by simpa using hq
     rw [List.length_cons, nexts]
     simp only [next, hc, Bool.not_true, Bool.false_eq_true, if_false]
-    rw [recv_reply s r _ hr hw hq']
+    rw [recv_reply dec s r _ hr hw hq']
     simp only [hrc, if_true]
     have e := ih { s with call := { s.call with continues := true },
                           wire := { s.wire with queue := rs.map Msg.reply ++ .reply f :: rest } }
